@@ -207,7 +207,7 @@ void gen_lp_family(Tape &t, const GenOpts &o, int family, GenLP &out) {
   out = GenLP();
   Model &m = out.m;
   int big = o.bigness >= 2 ? (int)t.below(3) : std::min(o.bigness, (int)t.below(2));
-  static const char *names[] = {"F-rand", "F-opt", "F-inf", "F-face", "F-unb", "F-ill", "F-cyc", "F-shape"};
+  static const char *names[] = {"F-rand", "F-opt", "F-inf", "F-face", "F-unb", "F-ill", "F-cyc", "F-shape", "F-fixb"};
   out.family = names[family % F_NFAM];
   switch (family % F_NFAM) {
   case F_RAND: {
@@ -301,6 +301,30 @@ void gen_lp_family(Tape &t, const GenOpts &o, int family, GenLP &out) {
     }
     out.expect = T_INFEASIBLE;
     out.family += mk == 0 ? "/margin1" : strprintf("/margin2^%d", margins[mk]);
+    if (o.bigness >= 2 && t.chance(1, 5)) {
+      // A free (or one-sided) extra column with a coefficient far below double range in every row: in exact
+      // arithmetic it repairs any contradiction (the LP is feasible, z is astronomically large), while every
+      // floating-point stage sees a zero column and an infeasible LP.  Truth is left to the reference solver.
+      Col z;
+      z.obj = 0;
+      int shape = (int)t.below(3);
+      z.lo = shape == 1 ? Q(0) : NINF();
+      z.up = shape == 2 ? Q(0) : PINF();
+      int e = t.coin() ? 520 + (int)t.below(240) : 60 + (int)t.below(400);
+      m.cols.push_back(z);
+      int zi = m.n() - 1;
+      for (auto &r : m.rows) {
+        if (r.a.empty()) continue;
+        Q d = qpow2(-e) * Q(1 + (long)t.below(9));
+        // sign so that moving z in its allowed direction relaxes the row
+        bool zpos = shape != 2;          // z may go to +infinity
+        bool want_up = r.sense == 'G' || r.sense == 'E';   // activity has to grow
+        r.a[zi] = (want_up == zpos) ? d : -d;
+        if (shape == 0 && t.coin()) r.a[zi] = -r.a[zi];   // free: either sign works
+      }
+      out.expect = T_UNKNOWN;
+      out.family += strprintf("/rescued-by-tiny-column2^-%d", e);
+    }
     break;
   }
   case F_UNB: {
@@ -397,6 +421,61 @@ void gen_lp_family(Tape &t, const GenOpts &o, int family, GenLP &out) {
     out.family += which == 0 ? "/beale" : "/kuhn";
     break;
   }
+  case F_FIXB: {
+    // A primal feasible, degenerate starting vertex whose only blocking basic variable is a FIXED structural
+    // column (basic in an equality row); the suggested warm-start basis is returned in hint_cs/hint_rs.  The
+    // entering column is improving and no other row contains it, so a ratio test that overlooks the fixed
+    // basic variable sees an unbounded ray although the LP has a finite optimum.
+    m = Model();
+    bool maxi = t.coin();
+    m.objsense = maxi ? -1 : 1;
+    int n = 3 + (int)t.below((uint32_t)std::max(1, std::min(o.maxn, 6) - 2));
+    int mm = 1 + (int)t.below((uint32_t)std::max(1, std::min(o.maxm, 5)));
+    int fi = (int)t.below((uint32_t)n), e = (int)t.below((uint32_t)n);
+    if (e == fi) e = (fi + 1) % n;
+    std::vector<Q> at(n);
+    std::string cs(n, '0'), rs(mm, '1');
+    for (int j = 0; j < n; j++) {
+      Col c;
+      if (j == fi) { c.lo = c.up = t.chance(1, 4) ? Q(0) : gen_num(t, 1); at[j] = c.lo; cs[j] = '1'; }
+      else if (j == e) { c.lo = t.coin() ? Q(0) : gen_num(t, 1); c.up = t.chance(1, 3) ? Q(c.lo + abs(gen_nz(t, 1)) + 1000) : PINF(); at[j] = c.lo; cs[j] = '0'; }
+      else { Q a = gen_num(t, 1), b = Q(a + abs(gen_nz(t, 1))); c.lo = a; c.up = b; bool up = t.coin(); at[j] = up ? b : a; cs[j] = up ? '2' : '0'; }
+      m.cols.push_back(c);
+    }
+    Row r0;
+    r0.sense = 'E';
+    r0.a[fi] = gen_nz(t, 1);
+    r0.a[e] = gen_nz(t, 1);
+    for (int j = 0; j < n; j++) if (j != fi && j != e && t.chance(1, 2)) r0.a[j] = gen_nz(t, 1);
+    r0.rhs = 0;
+    for (auto &kv : r0.a) r0.rhs += kv.second * at[kv.first];
+    rs[0] = '0';
+    m.rows.push_back(r0);
+    for (int i = 1; i < mm; i++) {
+      Row r;
+      for (int j = 0; j < n; j++) if (j != e && j != fi && t.chance(1, 2)) r.a[j] = gen_nz(t, 1);
+      Q act = 0;
+      for (auto &kv : r.a) act += kv.second * at[kv.first];
+      r.sense = t.coin() ? 'L' : 'G';
+      Q gapq = abs(gen_nz(t, 1));
+      r.rhs = r.sense == 'L' ? Q(act + gapq) : Q(act - gapq);   // strictly slack: logical basic
+      m.rows.push_back(r);
+    }
+    // internal (min form) costs: c_f random, so pi_0 = c_f / a_f ; the entering column gets a negative reduced cost
+    Q cf = t.chance(1, 2) ? Q(0) : gen_num(t, 1);
+    Q pi0 = cf / r0.a[fi];
+    for (int j = 0; j < n; j++) {
+      Q c;
+      if (j == fi) c = cf;
+      else if (j == e) c = pi0 * r0.a[e] - abs(gen_nz(t, 1));
+      else c = gen_num(t, 1);
+      m.cols[j].obj = maxi ? -c : c;
+    }
+    out.hint_cs = cs;
+    out.hint_rs = rs;
+    out.family += "/fixed-basic-blocker";
+    break;
+  }
   default: {   // F_SHAPE: structural corner cases
     m = Model();
     m.objsense = t.coin() ? -1 : 1;
@@ -435,7 +514,7 @@ void gen_lp_family(Tape &t, const GenOpts &o, int family, GenLP &out) {
 void gen_lp(Tape &t, const GenOpts &o, GenLP &out) {
   // weights: opt 5, ill 3, face 2, inf 3, unb 1, cyc 1, shape 2, rand 2  (an exhausted tape gives F-opt)
   static const int fam[] = {F_OPT, F_OPT, F_OPT, F_ILL, F_INF, F_FACE, F_SHAPE, F_RAND, F_OPT, F_ILL, F_INF, F_FACE,
-                            F_SHAPE, F_RAND, F_UNB, F_CYC, F_OPT, F_ILL, F_INF};
+                            F_SHAPE, F_RAND, F_UNB, F_CYC, F_OPT, F_ILL, F_INF, F_FIXB};
   gen_lp_family(t, o, fam[t.below(sizeof fam / sizeof fam[0])], out);
 }
 
